@@ -258,6 +258,7 @@ def _show_answer(a):
 
 
 def run(run: Run):
+    from .common import cached_guard as _cached_guard
     from ..canon import canonical, copy_context, edit_script
     from ..inline import inline_methods, members_resolver
     src = get_source()
@@ -408,7 +409,7 @@ def run(run: Run):
     # the obligations the other properties evaluate on each copy separately (scan answers, coercion ladders, date arithmetic,
     # text slicing, ...) must come out the same for both copies: this also covers members whose spellings differ (UNDECIDED above)
     run.rule('C20.R4', 'both copies meet (or miss) the same per-copy obligations of the other properties')
-    run.guard('C20.R4', r4_same_obligations, run, rt)
+    _cached_guard(run, 'C20.R4', r4_same_obligations, rt)
     run.floor('C20.R4', 150)
     run.floor('C20.R1', 40)
     run.floor('C20.R2', 40)
